@@ -1178,3 +1178,107 @@ Proof.
   unfold Inv0, nonneg. cbn.
   repeat split; try lia; repeat constructor; lia.
 Qed.
+
+(* ------------------------------------------------------------------ *)
+(* 9b. mortality without InvLe: an Ok result already says the checks    *)
+(*     dead <= infected and dead <= total_hosts passed                  *)
+(* ------------------------------------------------------------------ *)
+
+Lemma mortality_loop_ok_spec rate : (0 <= rate <= 1)%Q ->
+  forall k index m i th d m' i' th' d',
+  nonneg m -> 0 <= i <= th ->
+  mortality_loop k index rate m i th d = Ok (m', i', th', d') ->
+  nonneg m' /\ 0 <= i' /\ i - i' = d' - d /\ th - th' = d' - d /\
+  sumZ m - sumZ m' = d' - d /\ 0 <= d' - d /\ length m' = length m /\ pointwise_le m' m.
+Proof.
+  intros Hrate. induction k as [|k IH]; intros index m i th d m' i' th' d' Hm Hi H.
+  - cbn [mortality_loop] in H. injection H as <- <- <- <-.
+    split; [exact Hm|]. split; [lia|]. split; [lia|]. split; [lia|]. split; [lia|].
+    split; [lia|]. split; [reflexivity|].
+    apply pointwise_le_map with (f := fun x => x) in Hm; [|intros; lia].
+    rewrite map_id in Hm. exact Hm.
+  - destruct m as [|x r].
+    + cbn [mortality_loop] in H. injection H as <- <- <- <-.
+      split; [exact Hm|]. split; [lia|]. split; [lia|]. split; [lia|]. split; [lia|].
+      split; [lia|]. split; [reflexivity | constructor].
+    + apply nonneg_cons in Hm as [Hx Hr]. cbn [mortality_loop] in H.
+      destruct (x >? 0) eqn:EX.
+      * remember (if index =? 0 then x else qfloor (rate * zq x)) as dead eqn:Edead.
+        assert (Hdead : 0 <= dead <= x).
+        { subst dead. destruct (index =? 0); [lia | apply rate_share_bounds; [exact Hrate | exact Hx]]. }
+        destruct (dead >? i) eqn:E1; [discriminate|].
+        destruct (dead >? th) eqn:E2; [discriminate|].
+        assert (Hi' : (if i >? 0 then i - dead else i) = i - dead)
+          by (destruct (i >? 0) eqn:E3; lia).
+        assert (Hth' : (if th >? 0 then th - dead else th) = th - dead)
+          by (destruct (th >? 0) eqn:E4; lia).
+        rewrite Hi', Hth' in H. clear Hi' Hth'.
+        destruct (mortality_loop k (index + 1) rate r (i - dead) (th - dead) (d + dead))
+          as [[[[r' i''] th''] d'']|e] eqn:EL; cbn [bind] in H; [|discriminate].
+        injection H as <- <- <- <-.
+        assert (Hi2 : 0 <= i - dead <= th - dead) by lia.
+        destruct (IH _ _ _ _ _ _ _ _ _ Hr Hi2 EL)
+          as (Hnn & Hi0 & Hd & Ht & Hs & Hpos & Hlen & Hpw).
+        cbn [sumZ length].
+        split; [apply nonneg_cons; split; [lia | exact Hnn]|].
+        split; [lia|]. split; [lia|]. split; [lia|]. split; [lia|]. split; [lia|].
+        split; [lia|]. constructor; [lia | exact Hpw].
+      * destruct (mortality_loop k (index + 1) rate r i th d)
+          as [[[[r' i''] th''] d'']|e] eqn:EL; cbn [bind] in H; [|discriminate].
+        injection H as <- <- <- <-.
+        destruct (IH _ _ _ _ _ _ _ _ _ Hr Hi EL)
+          as (Hnn & Hi0 & Hd & Ht & Hs & Hpos & Hlen & Hpw).
+        cbn [sumZ length].
+        split; [apply nonneg_cons; split; [lia | exact Hnn]|].
+        split; [lia|]. split; [lia|]. split; [lia|]. split; [lia|]. split; [lia|].
+        split; [lia|]. constructor; [lia | exact Hpw].
+Qed.
+
+Lemma apply_mortality_Inv0 c rate lag c' : Inv0 c -> (0 <= rate <= 1)%Q -> 0 <= lag ->
+  apply_mortality c rate lag = Ok c' ->
+  Inv0 c' /\ hq c' = hq c /\ cS c' = cS c /\ cE c' = cE c /\ cTE c' = cTE c /\ cR c' = cR c /\
+  cD c' - cD c = cI c - cI c' /\ 0 <= cD c' - cD c <= cI c /\
+  length (cM c') = length (cM c) /\ (InvM c -> InvM c').
+Proof.
+  intros HInv Hrate Hlag H. unfold apply_mortality in H.
+  destruct (Qle_bool rate 0) eqn:ER.
+  - injection H as <-. unfold Inv0 in HInv. pose proof HInv as HInv'. inv0_destruct HInv'.
+    split; [exact HInv|]. split; [reflexivity|]. split; [reflexivity|]. split; [reflexivity|].
+    split; [reflexivity|]. split; [reflexivity|]. split; [lia|]. split; [lia|].
+    split; [reflexivity | tauto].
+  - destruct (lag <? 0) eqn:EL; [discriminate|].
+    unfold Inv0, InvM, hq, hosts in *. inv0_destruct HInv.
+    pose proof (sumZ_nonneg _ HE) as HE0.
+    destruct (mortality_loop _ 0 rate (cM c) (cI c) (cTH c) (cD c))
+      as [[[[m' i'] th'] d']|e] eqn:EM; cbn [bind] in H; [|discriminate].
+    injection H as <-. cellsimpl.
+    assert (Hith : 0 <= cI c <= cTH c) by lia.
+    destruct (mortality_loop_ok_spec rate Hrate _ _ _ _ _ _ _ _ _ _ HM Hith EM)
+      as (Hnn & Hi0 & Hd & Ht & Hs & Hpos & Hlen & Hpw).
+    split; [repeat (split; [first [assumption | lia]|]); lia|].
+    split; [lia|]. split; [reflexivity|]. split; [reflexivity|]. split; [reflexivity|].
+    split; [reflexivity|]. split; [lia|]. split; [lia|]. split; [exact Hlen | lia].
+Qed.
+
+(* with the same hypotheses: cohorts only shrink, total_hosts drops by the deaths *)
+Lemma apply_mortality_Inv0_extra c rate lag c' : Inv0 c -> (0 <= rate <= 1)%Q -> 0 <= lag ->
+  apply_mortality c rate lag = Ok c' ->
+  pointwise_le (cM c') (cM c) /\ sumZ (cM c) - sumZ (cM c') = cD c' - cD c /\
+  cTH c - cTH c' = cD c' - cD c.
+Proof.
+  intros HInv Hrate Hlag H. unfold apply_mortality in H.
+  unfold Inv0 in HInv. inv0_destruct HInv.
+  destruct (Qle_bool rate 0) eqn:ER.
+  - injection H as <-. split; [|lia].
+    apply pointwise_le_map with (f := fun x => x) in HM; [|intros; lia].
+    rewrite map_id in HM. exact HM.
+  - destruct (lag <? 0) eqn:EL; [discriminate|].
+    pose proof (sumZ_nonneg _ HE) as HE0.
+    destruct (mortality_loop _ 0 rate (cM c) (cI c) (cTH c) (cD c))
+      as [[[[m' i'] th'] d']|e] eqn:EM; cbn [bind] in H; [|discriminate].
+    injection H as <-. cellsimpl.
+    assert (Hith : 0 <= cI c <= cTH c) by lia.
+    destruct (mortality_loop_ok_spec rate Hrate _ _ _ _ _ _ _ _ _ _ HM Hith EM)
+      as (Hnn & Hi0 & Hd & Ht & Hs & Hpos & Hlen & Hpw).
+    split; [exact Hpw | lia].
+Qed.
